@@ -154,7 +154,7 @@ def run(rep, tier):
     r = rng('C06')
     drv = Driver()
     lines, exps, metas = [], [], []
-    nscenes = 36 * scale
+    nscenes = 110 * scale
     for k in range(nscenes):
         img = make_scene(r)
         conn = r.choice([8, 8, 4])
